@@ -21,6 +21,18 @@ FAULTS = [("write", errno.ENOSPC), ("write", errno.EIO), ("read", errno.EIO), ("
 def cases(draw, tier="quick"):
     c = draw(scenarios.scen_cases(kinds=KINDS))
     c["opts"]["j"] = 1
+    if c["kind"] == "t2s" and draw(st.booleans()):
+        # plain archive with GNU long name / long link records and a PAX header: the members the truncation layer cuts into
+        c["codec"] = None
+        ar = c["archive"]
+        if not any(e["type"] == "file" and e["name"] == b"zz-long" for e in ar["entries"]):
+            base = dict(mode=0o644, uid=0, gid=0, mtime=3, xattrs={})
+            ar["entries"] += [dict(base, name=b"zz-long/" + b"n" * draw(st.integers(101, 180)), type="file", data=b"payload " * draw(st.integers(0, 90)),
+                                   enc=dict(fmt="gnu", longname="gnu", num="octal", ostyle=0)),
+                              dict(base, name=b"zz-lnk" + b"k" * 110, type="slink", mode=0o777, linkname=b"t" * draw(st.integers(101, 160)),
+                                   enc=dict(fmt="gnu", longname="gnu", num="octal", ostyle=0)),
+                              dict(base, name=b"zz-pax" + b"p" * 120, type="file", data=b"x" * draw(st.integers(1, 700)), xattrs={b"user.k": b"v"},
+                                   enc=dict(fmt="ustar", longname="pax", num="octal", ostyle=0))]
     return c
 
 
@@ -41,22 +53,30 @@ def _members(b):
     pos = 0
     recs = []
     start = None
+    pax_size = None
     while pos + 512 <= len(b):
         h = b[pos:pos + 512]
         if not any(h):
             break
-        try:
-            size = int(h[124:136].rstrip(b" \0") or b"0", 8)
-        except ValueError:
-            return None
         tf = h[156:157]
-        if tf == b"S" or h[124] & 0x80:
+        if tf == b"S":
             return None
+        if h[124] & 0x80:
+            size = int.from_bytes(h[125:136], "big")
+        else:
+            try:
+                size = int(h[124:136].rstrip(b" \0") or b"0", 8)
+            except ValueError:
+                return None
+        if pax_size is not None and tf not in (b"L", b"K", b"x", b"g"):
+            size, pax_size = pax_size, None
         if start is None:
             start = pos
         ln = 512 + (size + 511) // 512 * 512
-        if tf == b"x" and b" size=" in b[pos + 512:pos + 512 + size]:
-            return None     # the size field of the following header is overridden
+        if tf == b"x":
+            m = re.search(rb"(?:^|\n)\d+ size=(\d+)\n", b[pos + 512:pos + 512 + size])
+            if m:
+                pax_size = int(m.group(1))     # overrides the size field of the following header
         if tf in (b"L", b"K", b"x"):
             recs.append((pos, pos + 512 + size, pos + ln))
         elif tf == b"g":
